@@ -112,8 +112,9 @@ class STimeDelta(object):
 class SAbs(object):
     """abstract object of an uninterpreted kind (an external value the proof does not look into), identified by a term"""
 
-    def __init__(self, kind, term, py_type=None):
+    def __init__(self, kind, term, py_type=None, attrs=None):
         self.kind, self.term, self.py_type = kind, term, py_type
+        self.attrs = attrs or {}
 
 
 def ite(c, a, b):
